@@ -229,3 +229,76 @@ CONTRACTS.append(Contract(
     # the mirror image of isSuperTypeOf: a.isSubTypeOf(b) == b.isSuperTypeOf(a)
     ensures=[('mirror-of-isSuperTypeOf',
               'result == (otherConstraint is self or not otherConstrained or equal or selfDerivedFromOther)')]))
+
+
+# ---- the three set operators over ANY number of operands (unbounded; the arity-indexed contracts above are instances) -----------
+from pyvc.core import RecSeqV as _RecSeqV, Loop as _Loop, PIntTuple as _PIntTuple, I as _I, toint as _toint
+OPERAND_ADMITS = z3.Function('operand.admits', _I, z3.IntSort(), z3.BoolSort())     # does the operand with this identity admit v
+_q = z3.Int('j!q')
+
+
+class _Operands(_RecSeqV):
+    """self._values: the operand constraints, known by identity; calling one raises ValueConstraintError unless it admits"""
+
+    def elem(self, i):
+        ident = self.cols[0][i]
+
+        def call(ex, self_, value, idx=None):
+            if not ex.choose(OPERAND_ADMITS(ident, _toint(value)), 'operand-admits'):
+                raise _Raise(ExcV('ValueConstraintError'))
+            return None
+        return Obj('AbstractConstraint', {'__id__': ident}, {'__call__': call}, name='operand')
+
+
+def _set_self(cls):
+    def make(ex, env):
+        ops = env['operands']
+        return Obj(cls, {'_values': _Operands([ops.z], names=('__id__',))}, name='self')
+    return make
+
+
+def _all_admit(ex, ops, upto, v):
+    z = ops.cols[0] if isinstance(ops, _RecSeqV) else ops.z
+    return z3.ForAll([_q], z3.Implies(z3.And(_q >= 0, _q < _toint(upto)), OPERAND_ADMITS(z[_q], _toint(v))))
+
+
+def _none_admits(ex, ops, upto, v):
+    z = ops.cols[0] if isinstance(ops, _RecSeqV) else ops.z
+    return z3.ForAll([_q], z3.Implies(z3.And(_q >= 0, _q < _toint(upto)), z3.Not(OPERAND_ADMITS(z[_q], _toint(v)))))
+
+
+_NG = {'all_admit': FnV(_all_admit, 'all_admit'), 'none_admits': FnV(_none_admits, 'none_admits'),
+       'error': {'ValueConstraintError': _ClassV('ValueConstraintError'), '__name__': 'error'}}
+_NP = lambda cls: dict(operands=_PIntTuple(), self=PDerived(_set_self(cls)), value=PInt(), idx=PConst(None))
+CONTRACTS.append(Contract(
+    id='type.constraint::ConstraintsIntersection._testValue[any-arity]', file=F, qual='ConstraintsIntersection._testValue', properties=P,
+    params=_NP('ConstraintsIntersection'), globals=_NG,
+    loops={0: _Loop(index='k', invariant=['all_admit(loop_seq, k, value)'])},
+    ensures=[('passes-only-if-every-operand-admits', 'all_admit(operands, len(operands), value)')],
+    raise_ensures={'ValueConstraintError': ['not all_admit(operands, len(operands), value)']},
+    may_raise={'ValueConstraintError': True},
+    note='admits exactly the intersection of the operands\' denotations, for any number of operands'))
+CONTRACTS.append(Contract(
+    id='type.constraint::ConstraintsUnion._testValue[any-arity]', file=F, qual='ConstraintsUnion._testValue', properties=P,
+    params=_NP('ConstraintsUnion'), globals=_NG,
+    loops={0: _Loop(index='k', invariant=['none_admits(loop_seq, k, value)'])},
+    ensures=[('passes-only-if-some-operand-admits', 'not none_admits(operands, len(operands), value)')],
+    raise_ensures={'ValueConstraintError': ['none_admits(operands, len(operands), value)']},
+    may_raise={'ValueConstraintError': True},
+    note='admits exactly the union of the operands\' denotations (nothing for no operands: recorded finding '
+         'KF-empty-union-admits-everything lives one level up, in AbstractConstraint.__call__)'))
+CONTRACTS.append(Contract(
+    id='type.constraint::ConstraintsExclusion._testValue[any-arity]', file=F, qual='ConstraintsExclusion._testValue', properties=P,
+    params=_NP('ConstraintsExclusion'), globals=_NG,
+    loops={0: _Loop(index='k', invariant=['none_admits(loop_seq, k, value)'])},
+    ensures=[('passes-only-if-no-operand-admits', 'none_admits(operands, len(operands), value)')],
+    raise_ensures={'ValueConstraintError': ['not none_admits(operands, len(operands), value)']},
+    may_raise={'ValueConstraintError': True},
+    note='admits exactly the complement of the union of the operands\' denotations'))
+
+
+for _c in CONTRACTS:
+    import re as _re
+    _m = _re.search(r'\._testValue\[(\d)\]$|__add__\[(\d)\]$|_derive\[(\d)\]$', _c.id)
+    if _m:
+        _c.bounded = 'constraint sets of exactly %s operands' % [g for g in _m.groups() if g is not None][0]
